@@ -18,7 +18,7 @@ func init() {
 	register(&Driver{
 		ID:        "C04",
 		Technique: "explicit-state exploration: all well-nested operation trees (create / nested create / lookups with and without early references / failing create / failing early factory) up to a size bound executed on a fresh real singleton registry with a reference automaton stepped alongside; plus the same automaton monitored on every registry call of real starts with every single injected fault, followed by repeated lookups",
-		Rule:      "layer 1: op trees over names {a,b}, ops {Get(n,early?), InCreation(n), Add(n) (direct publication), Create(n){body}->ok|err with ok|failing early factory}, <=4 ops nesting <=2 (thorough <=5/3); states = distinct abstract protocol states (per name: published, creating depth, early ref seen, failed, in-creation mark); layers 2+3: 3-node graphs x lazy masks x every single fault site, then 3 rounds of by-name lookups; non-trivial = history contains a nested or failing creation. Families added in later rounds (look-ups inside Init, retries after an abandoned attempt, user extension points at every Order, several containers, odd names / types / values) are listed per part in this file and described in MANIFEST.json (level_claimed.text) and DESIGN §7",
+		Rule:      "layer 1: op trees over names {a,b}, ops {Get(n,early?), InCreation(n), Add(n) (direct publication), Expose(n) (the early-reference factory registered again inside the creation), Create(n){body}->ok|err with ok|failing early factory}, <=4 ops nesting <=2 (thorough <=5/3); states = distinct abstract protocol states (per name: published, creating depth, early ref seen, failed, in-creation mark); layers 2+3: 3-node graphs x lazy masks x every single fault site, then 3 rounds of by-name lookups; non-trivial = history contains a nested or failing creation. Families added in later rounds (look-ups inside Init, retries after an abandoned attempt, user extension points at every Order, several containers, odd names / types / values) are listed per part in this file and described in MANIFEST.json (level_claimed.text) and DESIGN §7",
 		Assumptions: []string{
 			"registry-level histories are those a factory can issue: the creation body starts by registering the early-reference factory; no re-entrant creation of a name already in creation",
 			"> 2 names or > 5 operations at registry level are not covered",
@@ -34,7 +34,7 @@ func init() {
 // ---- layer 1: operation trees on the real registry
 
 type c04Op struct {
-	K      string  `json:"k"` // G0 G1 IC CR
+	K      string  `json:"k"` // G0 G1 IC AD AF CR
 	N      string  `json:"n"`
 	Body   []c04Op `json:"body,omitempty"`
 	Fail   bool    `json:"fail,omitempty"`
@@ -113,6 +113,16 @@ func (w *c04World) exec(ops []c04Op) {
 					w.viol = append(w.viol, fmt.Sprintf("%s(%s) during creation attempt %d returned %s, not the early reference of this attempt", o.K, o.N, w.attempts[o.N], have))
 				}
 			}
+		case "AF":
+			// the creation routine exposes the name a second time (registers its early-reference factory
+			// again) while the creation is running: whatever was handed out before stays the early reference
+			if !w.inCreat[o.N] {
+				continue // a factory only exposes a name it is creating
+			}
+			attempt, name := w.attempts[o.N], o.N
+			w.reg.AddSingletonFactory(name, container.FuncSingletonFactory(func() (*cd.Meta, error) {
+				return cd.NewMeta(&dummyComp{fmt.Sprintf("early-%s#%d", name, attempt)}), nil
+			}))
 		case "AD":
 			// direct publication (AddSingleton) of a fresh instance, possibly for a name whose
 			// creation is still running
@@ -218,7 +228,7 @@ func c04Seqs(depth, budget int, prefix []c04Op, yield func([]c04Op) bool) bool {
 		return true
 	}
 	for _, n := range c04Names {
-		for _, k := range []string{"G0", "G1", "IC", "AD"} {
+		for _, k := range []string{"G0", "G1", "IC", "AD", "AF"} {
 			if !c04Seqs(depth, budget-1, append(prefix[:len(prefix):len(prefix)], c04Op{K: k, N: n}), yield) {
 				return false
 			}
